@@ -16,6 +16,9 @@ func (k msgServer) PublishReferencePayloadLink(goCtx context.Context, msg *types
 	var err error
 
 	// Check if a Payload Link was already stored at the given key
+	if len(msg.Key) == 0 {
+		return nil, sdkerrors.Wrap(sdkerrors.ErrInvalidRequest, "payload link key cannot be empty")
+	}
 	if !(k.checkIfPayloadLinkExists(ctx, msg.Key)) {
 		return nil, sdkerrors.Wrap(sdkerrors.ErrInvalidRequest, "data was found at the given key, cannot overwrite present payloadlinks")
 	}
